@@ -218,6 +218,8 @@ func VerifH_C11_History() {
 	case 1:
 		vAssume(late)
 	}
+	var writesSoFar [2]uint64
+	var lastHead [2]cid.Cid
 	step := func(ctx context.Context, writes [2]bool, tag string, label string) {
 		for i, f := range cFields {
 			if !writes[i] {
@@ -237,6 +239,18 @@ func VerifH_C11_History() {
 			if stored == nil {
 				return
 			}
+			// C04.O2: a new commit's height is one more than the greatest height among its parents, its parents
+			// are the previous heads, and afterwards it is the only head
+			writesSoFar[i]++
+			vAssert(stored.Delta.GetPriority() == writesSoFar[i], "height-is-one-more-than-parents")
+			if writesSoFar[i] == 1 {
+				vAssert(len(stored.Heads) == 0, "first-commit-has-no-parents")
+			} else {
+				vAssert(len(stored.Heads) == 1 && stored.Heads[0].Cid == lastHead[i], "parents-are-the-previous-heads")
+			}
+			hl, hmax, herr := NewHeadSet(t.head, reg.HeadstorePrefix()).List(ctx)
+			vAssert(herr == nil && len(hl) == 1 && hl[0] == lnk.Cid && hmax == writesSoFar[i], "new-commit-is-the-only-head")
+			lastHead[i] = lnk.Cid
 			data := stored.Delta.GetData()
 			if covered(i) {
 				vAssert(!bytes.Equal(data, payload), label+"-stored-block-is-not-plaintext")
